@@ -47,7 +47,7 @@ from pulser.json.abstract_repr.validation import validate_abstract_repr
 PROP = "C04"
 TARGETS = ["PulserModel.Generated.AbstractOps", "PulserModel.Serialize", "Proofs.Serialize", "Properties.C04"]
 TIE_THEOREMS = {"defaults_agree", "top_level_agree", "coverage_complete", "expr_ops_agree", "flags_agree"}
-COUNTS = {"quick": 1000, "thorough": 20000}
+COUNTS = {"quick": 1000, "thorough": 8000}     # (thorough about 12 min)
 TOL = 1e-9
 KNOWN_BROKEN_OPERATORS: list = []   # as in Properties/C04.lean (F-C04-1, rounding, is repaired)
 
